@@ -11,6 +11,8 @@ Proof. unfold regsame. congruence. Qed.
 Lemma regsame_put s u a : regsame s (put s u a). Proof. reflexivity. Qed.
 Lemma regsame_upd_actor s u f : regsame s (upd_actor s u f).
 Proof. unfold upd_actor. destruct (get s u); reflexivity. Qed.
+Lemma regsame_drop_child s u w : regsame s (drop_child s u w).
+Proof. unfold drop_child. destruct (lookup w (registry s)); [apply regsame_refl|apply regsame_upd_actor]. Qed.
 Lemma regsame_push_sys s u e : regsame s (push_sys s u e).
 Proof. apply regsame_upd_actor. Qed.
 Lemma regsame_deliver_sys s t snd m : regsame s (deliver_sys s t snd m).
@@ -292,7 +294,7 @@ Proof.
        [eapply ext_upd_status; [exact Ea|congruence]|apply ext_of_keep; [apply keep_deliver_sys|apply regsame_deliver_sys]]).
   - apply (bind_rel ext); [apply ext_trans| |].
     + intros s1 o1 p1 E. eapply ext_trans; [|eapply ext_handle; exact E].
-      apply ext_of_keep; [apply keep_upd_actor; kp|apply regsame_upd_actor].
+      apply ext_of_keep; [apply keep_drop_child|apply regsame_drop_child].
     + intros s1 s2 o2 p2. destruct (get s1 u) as [a2|]; [|intros H; inversion H; subst; apply ext_refl].
       destruct (a_st a2); try (intros H; inversion H; subst; apply ext_refl).
       * apply ext_try_restarted.
